@@ -80,19 +80,25 @@ class Geom:
         self.ref_shape = tuple(ref_shape)
         self.off_rc = tuple(off_rc)
         self.src_shape = tuple(src_shape)
+        # pixel height / pixel width of each image (1 = square pixels); set after construction for the few non-square cases
+        self.ref_yscale = 1.0
+        self.src_yscale = 1.0
 
     @property
     def ref_transform(self):
-        return Affine(self.ref_res, 0, self.x0, 0, -self.ref_res, self.y0)
+        return Affine(self.ref_res, 0, self.x0, 0, -self.ref_res * self.ref_yscale, self.y0)
 
     @property
     def src_transform(self):
-        return Affine(self.src_res, 0, self.x0 + self.off_rc[1] * self.ref_res, 0, -self.src_res,
-                      self.y0 - self.off_rc[0] * self.ref_res)
+        return Affine(self.src_res, 0, self.x0 + self.off_rc[1] * self.ref_res, 0, -self.src_res * self.src_yscale,
+                      self.y0 - self.off_rc[0] * self.ref_res * self.ref_yscale)
 
     def describe(self):
-        return dict(ref_res=self.ref_res, ratio=self.ratio, origin=(self.x0, self.y0), ref_shape=self.ref_shape,
-                    off_rc=self.off_rc, src_shape=self.src_shape)
+        d = dict(ref_res=self.ref_res, ratio=self.ratio, origin=(self.x0, self.y0), ref_shape=self.ref_shape,
+                 off_rc=self.off_rc, src_shape=self.src_shape)
+        if self.ref_yscale != 1.0 or self.src_yscale != 1.0:
+            d.update(ref_pixel_height_over_width=self.ref_yscale, src_pixel_height_over_width=self.src_yscale)
+        return d
 
 
 RATIOS = [1, 2, 2.5, 3, 1.7, 4.3, 0.5, 1 / 3, 0.4]
